@@ -2,6 +2,7 @@
 //! smart-contract engine crates of /repo (wasm-transform, wasm-chain-integration).
 //! Subcommands read ndjson behaviours exported by TLC (spec -> impl) or record ndjson traces
 //! from the real code (impl -> spec).
+mod inst_replay;
 mod mem;
 mod trie_canon;
 mod trie_record;
@@ -19,6 +20,7 @@ fn main() {
     let code = match args[1].as_str() {
         "trie-replay" => trie_replay::main(rest),
         "trie-record" => trie_record::main(rest),
+        "inst-replay" => inst_replay::main(rest),
         "trie-canon" => trie_canon::main(rest),
         other => {
             eprintln!("unknown subcommand {}", other);
